@@ -112,6 +112,11 @@ def cases(shard, tier):
                 seconds += ['window', 'data', 'dtype']
             for second in seconds:
                 yield dict(shard, n=n, frm=f, to=t, user=user, itype=it, second=second)
+            if it is not None and user in ('none', 'index_max', 'spacing=0'):
+                # the index type is assigned through the public setter after the frame was created ...
+                yield dict(shard, n=n, frm=f, to=t, user=user, itype=it, second='none', itype_route='later')
+                # ... or only after a first write of the (then index-less) frame
+                yield dict(shard, n=n, frm=f, to=t, user=user, itype=it, second='itype-added', itype_route='after-write')
 
 
 USER_VALUES = {'index_min': -7.5, 'index_max': 123456.0, 'spacing': 0.25, 'direction': 'DECREASING',
@@ -202,7 +207,8 @@ def run_case(c):
     vals = values(dtype, c['pattern'], n)
     arr = S.arr_spec(dtype, [n], to_pat(dtype, vals))
     fkw = {}
-    if c['itype']:
+    route = c.get('itype_route', 'kw')
+    if c['itype'] and route == 'kw':
         fkw['index_type'] = c['itype']
     if c['user'] != 'none':
         fkw[c['user'].split('=')[0]] = USER_VALUES[c['user']]
@@ -210,6 +216,9 @@ def run_case(c):
           'ops': [S.op_lf(), S.op_origin(), S.op_add('channel', 'C0', 'INDEX'),
                   S.op_add('channel', 'C1', 'VALUE'),
                   S.op_add('frame', 'F0', 'FRAME', channels=[{'$ref': 'C0'}, {'$ref': 'C1'}], **fkw)]}
+    late = {'op': 'set', 'h': 'F0', 'attr': 'index_type', 'part': 'value', 'value': c['itype']}
+    if route == 'later':
+        sp['ops'].append(late)
     other = S.arr_spec('uint8', [n], list(range(n)))
     b = S.build(sp)
     viol = []
@@ -238,6 +247,11 @@ def run_case(c):
         tag = 'second-' + c['second']
         if c['second'] == 'window':
             frm, to = 1, 3
+            data, st = write(arr, frm, to)
+        elif c['second'] == 'itype-added':
+            st_op = S.apply_op(b, late)
+            if st_op != 'ok':
+                return Outcome('harness', [("C13:harness:index-type-assignment-failed", f"{st_op} | {c}")], False)
             data, st = write(arr, frm, to)
         elif c['second'] == 'data':
             bits = 8 * DTYPE_SIZES[dtype]
